@@ -427,8 +427,18 @@ def close(a, b, scale, tol=TOL):
 # prescribing + recording proxies
 # ------------------------------------------------------------------------------------------------
 
+def _bind_normal(loc=0.0, scale=1.0, size=None):
+    return loc, scale, size
+
+
+def _bind_gamma(shape, scale=1.0, size=None):
+    return shape, scale, size
+
+
 class Proxy:
-    """duck-typed generator: returns prescribed (float32-exact) values, records kind/shape/arguments"""
+    """duck-typed generator: returns prescribed (float32-exact) values, records kind/shape/arguments.  Signature-agnostic (item 21):
+    `normal` / `gamma` take any positional / keyword form numpy's Generator accepts; a call this recorder does not understand (other
+    argument names, another Generator method) is forwarded to a real generator and noted in `unexpected` (reported as a broken TIE)"""
 
     def __init__(self, seed, wild, get_ctx):
         self.g = np.random.default_rng(seed)
@@ -436,31 +446,68 @@ class Proxy:
         self.get_ctx = get_ctx      # () -> (stage name, state snapshot)
         self.records = []
         self.in_mvn = None
+        self.unexpected = []
 
-    def normal(self, loc=0.0, scale=1.0, size=None):
+    def _backend(self):
+        return self.g
+
+    def __getattr__(self, name):
+        # any other Generator method (standard_normal, uniform, ...): forwarded, unrecorded, noted
+        if name.startswith("__") or name in ("g", "real", "unexpected", "records", "in_mvn", "get_ctx", "wild"):
+            raise AttributeError(name)
+        target = getattr(self._backend(), name)
+        self.unexpected.append("generator method %s" % name)
+        return target
+
+    def _normal_value(self, loc, scale, size, args, kwargs):
         shape = np.broadcast(np.asarray(loc), np.asarray(scale)).shape if size is None else (size if isinstance(size, tuple) else (size,))
         k = self.g.choice([1.0, 1.0, 1.0, 0.2, 2.5]) if self.wild else 1.0
         z = self.g.standard_normal(shape) * k
         val = f32(np.asarray(loc, dtype=np.float64) + np.asarray(scale, dtype=np.float64) * z)
-        if self.in_mvn is not None:
-            self.in_mvn["z"] = np.array(val, dtype=np.float64)
-            return val
-        stage, st = self.get_ctx()
-        self.records.append({"kind": "normal", "stage": stage, "loc": np.array(loc, dtype=np.float64),
-                             "scale": np.array(scale, dtype=np.float64), "size": size, "value": np.array(val), "state": st})
-        return val if val.shape != () else float(val)
+        return val, (val if val.shape != () else float(val))
 
-    def gamma(self, shape, scale=1.0, size=None):
-        shp = np.broadcast(np.asarray(shape), np.asarray(scale)).shape
+    def _gamma_value(self, shape, scale, size, args, kwargs):
+        shp = np.broadcast(np.asarray(shape), np.asarray(scale)).shape if size is None else (size if isinstance(size, tuple) else (size,))
         v = self.g.gamma(np.broadcast_to(np.asarray(shape, dtype=np.float64), shp), np.broadcast_to(np.asarray(scale, dtype=np.float64), shp))
         if self.wild:
             ext = 10.0 ** self.g.uniform(-8, 8, size=shp)
             v = np.where(self.g.random(shp) < 0.15, ext, v)
         val = f32(np.maximum(v, 1e-30))
+        return val, (val if val.shape != () else float(val))
+
+    def normal(self, *args, **kwargs):
+        try:
+            loc, scale, size = _bind_normal(*args, **kwargs)
+        except TypeError:
+            self.unexpected.append("normal%r%r" % (args, sorted(kwargs)))
+            return self._backend().normal(*args, **kwargs)
+        val, out = self._normal_value(loc, scale, size, args, kwargs)
+        if self.in_mvn is not None:
+            self.in_mvn["z"] = np.array(val, dtype=np.float64)
+            return out if isinstance(self, PassProxy) else val
+        stage, st = self.get_ctx()
+        self.records.append({"kind": "normal", "stage": stage, "loc": np.array(loc, dtype=np.float64),
+                             "scale": np.array(scale, dtype=np.float64), "size": size, "value": np.array(val), "state": st})
+        return out
+
+    def standard_normal(self, *args, **kwargs):
+        """`standard_normal(n)` is `normal(size=n)` (same variates from the same stream)"""
+        if len(args) > 1 or set(kwargs) - {"size"} or (args and kwargs):
+            self.unexpected.append("standard_normal%r%r" % (args, sorted(kwargs)))
+            return self._backend().standard_normal(*args, **kwargs)
+        return self.normal(size=(args[0] if args else kwargs.get("size")))
+
+    def gamma(self, *args, **kwargs):
+        try:
+            shape, scale, size = _bind_gamma(*args, **kwargs)
+        except TypeError:
+            self.unexpected.append("gamma%r%r" % (args, sorted(kwargs)))
+            return self._backend().gamma(*args, **kwargs)
+        val, out = self._gamma_value(shape, scale, size, args, kwargs)
         stage, st = self.get_ctx()
         self.records.append({"kind": "gamma", "stage": stage, "shape": np.array(shape, dtype=np.float64),
                              "scale": np.array(scale, dtype=np.float64), "size": size, "value": np.array(val), "state": st})
-        return val if val.shape != () else float(val)
+        return out
 
 
 class PassProxy(Proxy):
@@ -471,27 +518,46 @@ class PassProxy(Proxy):
         Proxy.__init__(self, 0, False, None)
         self.real = real
 
-    def normal(self, loc=0.0, scale=1.0, size=None):
-        out = self.real.normal(loc, scale, size)
-        val = np.asarray(out, dtype=np.float64)
-        if self.in_mvn is not None:
-            self.in_mvn["z"] = np.array(val)
-            return out
-        stage, st = self.get_ctx()
-        self.records.append({"kind": "normal", "stage": stage, "loc": np.array(loc, dtype=np.float64),
-                             "scale": np.array(scale, dtype=np.float64), "size": size, "value": np.array(val), "state": st})
-        return out
+    def _backend(self):
+        return self.real
 
-    def gamma(self, shape, scale=1.0, size=None):
-        out = self.real.gamma(shape, scale, size)
-        stage, st = self.get_ctx()
-        self.records.append({"kind": "gamma", "stage": stage, "shape": np.array(shape, dtype=np.float64),
-                             "scale": np.array(scale, dtype=np.float64), "size": size, "value": np.asarray(out, dtype=np.float64).copy(), "state": st})
-        return out
+    def _normal_value(self, loc, scale, size, args, kwargs):
+        out = self.real.normal(*args, **kwargs)
+        return np.asarray(out, dtype=np.float64).copy(), out
+
+    def _gamma_value(self, shape, scale, size, args, kwargs):
+        out = self.real.gamma(*args, **kwargs)
+        return np.asarray(out, dtype=np.float64).copy(), out
 
 
 class ForcedFailure(Exception):
     pass
+
+
+def innermost_in_harness(e):
+    """is the innermost frame of the exception in harness code (a wrapper / proxy of ours), not in the implementation?"""
+    import os
+    import traceback
+    tb = traceback.extract_tb(e.__traceback__)
+    return bool(tb) and os.path.abspath(tb[-1].filename) == os.path.abspath(__file__)
+
+
+def wrapper_trouble(res, trace, case, prefix="C08"):
+    """item 21: calls the recorders did not understand, wrapper exceptions, missing stage functions -> counter + broken tie; returns
+    True when the sweep cannot be judged"""
+    stop = False
+    for key in ("unsupported", "wrapper_error"):
+        if trace.get(key):
+            res.count("wrapper.unexpected-call")
+            report(res, "the harness's recording wrappers could not follow this sweep: " + str(trace[key]), case, trace[key], "recordable sweep",
+                   prefix + ":wrapper-unexpected-call")
+            stop = True
+    if trace.get("unexpected"):
+        res.count("wrapper.unexpected-call", len(trace["unexpected"]))
+        report(res, "calls the harness's recorders did not understand (forwarded unchanged)", case, trace["unexpected"][:5], "recordable calls",
+               prefix + ":wrapper-unexpected-call")
+        stop = True          # the draw sequence is incomplete: the per-draw oracles cannot be evaluated
+    return stop
 
 
 def run_sweep(model, proxy, fail_rng, fail_p, data, stages=None, module=None, snap=None, step=None):
@@ -507,17 +573,38 @@ def run_sweep(model, proxy, fail_rng, fail_p, data, stages=None, module=None, sn
     cur = {"stage": None}
     proxy.get_ctx = lambda: (cur["stage"], snap(w))
     proxy.records = []
+    proxy.unexpected = []
+    trace["unexpected"] = proxy.unexpected
+    import inspect
+    real_mvn = fm.sample_mvn_from_precision
 
-    def mvn_wrapper(Q, mu=None, mu_part=None, chol_factor=False, rng=None):
-        rec = {"kind": "mvn", "stage": cur["stage"], "Q": np.array(Q, dtype=np.float64), "b": np.array(mu_part, dtype=np.float64),
-               "rng_is_proxy": rng is proxy, "state": snap(w), "failed": False, "z": None, "value": None}
+    def mvn_wrapper(*args, **kwargs):
+        """signature-agnostic (item 21): whatever positional / keyword form the sampler uses is forwarded unchanged; the arguments
+        the oracles need are found by binding against the real function's signature"""
+        rec = None
+        try:
+            ba = inspect.signature(real_mvn).bind(*args, **kwargs)
+            ba.apply_defaults()
+            a_ = ba.arguments
+            form = "mu_part" if a_.get("mu_part") is not None else ("mu" if a_.get("mu") is not None else None)
+            Q_ = np.array(a_["Q"], dtype=np.float64)
+            if form is None or a_.get("chol_factor"):
+                raise TypeError("call form not understood by the recorder")
+            b_ = np.array(a_[form], dtype=np.float64)
+            if form == "mu":
+                b_ = Q_ @ b_          # canonical (mu_part) form: N(Q^-1 (Q m), Q^-1) = N(m, Q^-1)
+            rec = {"kind": "mvn", "stage": cur["stage"], "Q": Q_, "b": b_, "form": form, "rng_is_proxy": a_.get("rng") is proxy,
+                   "state": snap(w), "failed": False, "z": None, "value": None}
+        except Exception as e:      # noqa: BLE001 -- the recorder's problem, not the implementation's
+            proxy.unexpected.append("sample_mvn_from_precision call not understood: %s" % str(e)[:120])
+            return real_mvn(*args, **kwargs)
         proxy.records.append(rec)
         if fail_rng.random() < fail_p:
             rec["failed"] = True
             raise ForcedFailure()
         proxy.in_mvn = rec
         try:
-            out = fm.sample_mvn_from_precision(Q, mu=mu, mu_part=mu_part, chol_factor=chol_factor, rng=rng)
+            out = real_mvn(*args, **kwargs)
         except Exception:
             rec["failed"] = True
             raise
@@ -525,6 +612,13 @@ def run_sweep(model, proxy, fail_rng, fail_p, data, stages=None, module=None, sn
             proxy.in_mvn = None
         rec["value"] = np.array(out, dtype=np.float64)
         return out
+
+    missing_stage = [nm for nm in stages if not callable(getattr(type(w), nm, None))]
+    if missing_stage:
+        # the stage functions are private names: knowledge about the current layout of the class, i.e. part of the tie
+        trace["unsupported"] = "stage functions %s not found on %s" % (missing_stage, type(w).__name__)
+        trace["records"] = []
+        return trace
 
     def wrap(name):
         orig = getattr(type(w), name)
@@ -546,8 +640,11 @@ def run_sweep(model, proxy, fail_rng, fail_p, data, stages=None, module=None, sn
             return r
         return f
 
-    saved = sc.sample_mvn_from_precision
-    sc.sample_mvn_from_precision = mvn_wrapper
+    had_name = hasattr(sc, "sample_mvn_from_precision")
+    saved = getattr(sc, "sample_mvn_from_precision", None)
+    if had_name:
+        sc.sample_mvn_from_precision = mvn_wrapper
+    fm.sample_mvn_from_precision = mvn_wrapper          # whichever way the sampler reaches the helper
     for nme in stages:
         setattr(w, nme, wrap(nme))
     try:
@@ -556,9 +653,15 @@ def run_sweep(model, proxy, fail_rng, fail_p, data, stages=None, module=None, sn
             try:
                 (step or model.step)()
             except Exception as e:      # noqa: BLE001 -- the unchanged sampler never raises on these inputs
-                trace["raised"] = "%s: %s (in %s)" % (type(e).__name__, str(e)[:200], cur["stage"])
+                msg = "%s: %s (in %s)" % (type(e).__name__, str(e)[:200], cur["stage"])
+                if innermost_in_harness(e):
+                    trace["wrapper_error"] = msg          # raised by the harness's own wrapper / proxy: a broken tie, never a violation
+                else:
+                    trace["raised"] = msg
     finally:
-        sc.sample_mvn_from_precision = saved
+        if had_name:
+            sc.sample_mvn_from_precision = saved
+        fm.sample_mvn_from_precision = real_mvn
         for nme in stages:
             if nme in w.__dict__:
                 delattr(w, nme)
@@ -592,7 +695,7 @@ STAGE_OF = {"W0": "_W0_step", "V0": "_V0_step", "W": "_W_step", "V2": "_V2_step"
 # (C18), whether inputs are left untouched, whether an unusual array layout is accepted, internal bookkeeping attributes; for the
 # interaction sampler of the extension also its transform and its row filter (C04)): a difference is reported as a broken TIE (expected behaviour = the documented/modelled one),
 # never as a counterexample with a replay.
-TIE_ONLY = {"C08:cli-chain", "C08:draw-kind", "C08:rng", "C08:data-mutated", "C08:input-mutated", "C08:add-observations-raised", "C08:instalments-state",
+TIE_ONLY = {"C08:wrapper-unexpected-call", "C08:cli-chain", "C08:draw-kind", "C08:rng", "C08:data-mutated", "C08:input-mutated", "C08:add-observations-raised", "C08:instalments-state",
             "C08I:draw-kind", "C08I:rng", "C08I:transform", "C08I:rows", "C08I:add-observations-raised"}
 
 
@@ -1171,6 +1274,8 @@ def run_case(spec, res, queue):
         before = snap(w)
         tuples_before = (list(map(float, w.y)), list(map(int, w.cline)), list(map(int, w.dd1)), list(map(int, w.dd2)))
         trace = run_sweep(model, proxy, fail_rng, spec["fail_p"] if oracle_sweep else 0.0, data)
+        if wrapper_trouble(res, trace, case):
+            return
         if old_proxy is not None:
             res.count("class.reuse.other-generator.draws-by-new-generator", len(proxy.records))
         if old_proxy is not None and len(old_proxy.records) != n_old:
@@ -1618,6 +1723,8 @@ def irun_case(spec, res, iqueue):
             iperturb(w, rng, N)
         before = isnap(w)
         trace = run_sweep(model, proxy, fail_rng, spec["fail_p"], data, stages=ISTAGES, module=sci, snap=isnap)
+        if wrapper_trouble(res, trace, case, prefix="C08I"):
+            return
         res.evaluations += 1
         res.count("inter.sweeps")
         if prev is not None and N:
@@ -1784,7 +1891,7 @@ def cli_case(ctx, res, spec, queue, iqueue):
     received = {}
     orig_step = cls.__dict__["step"]
 
-    def step_wrapper(self):
+    def step_wrapper(self, *args, **kwargs):
         w = self.wrapped_model
         if not received:
             real = w.rng
@@ -1795,7 +1902,7 @@ def cli_case(ctx, res, spec, queue, iqueue):
         before = snapf(w)
         data = (np.array(w.y, dtype=np.float64), cl, d1, d2)
         trace = run_sweep(self, received["proxy"], random.Random(0), 0.0, data, stages=stages, module=mod, snap=snapf,
-                          step=lambda: orig_step(self))
+                          step=lambda: orig_step(self, *args, **kwargs))
         steps.append((before, trace, snapf(w)))
 
     argv = ["train_model", "--data", os.path.join(tmp, "screen.h5"), "--model", spec["sampler"], "--model-param",
@@ -1804,7 +1911,7 @@ def cli_case(ctx, res, spec, queue, iqueue):
             "--chain-index", str(spec["chain_index"]), "--seed", str(spec["seed"])] + (["--verbose"] if spec.get("verbose") else [])
     lg = logging.getLogger("batchie")
     saved_argv, saved_handlers, saved_level = sys.argv, list(lg.handlers), lg.level
-    raised = None
+    raised, raised_in_harness = None, False
     try:
         full.save_h5(os.path.join(tmp, "screen.h5"))
         cls.step = step_wrapper
@@ -1815,6 +1922,7 @@ def cli_case(ctx, res, spec, queue, iqueue):
             tm.main()
         except BaseException as e:      # noqa: BLE001 -- SystemExit from argparse included
             raised = "%s: %s" % (type(e).__name__, str(e)[:200])
+            raised_in_harness = innermost_in_harness(e)
         finally:
             sys.stderr = saved_err
         holder = ThetaHolder.load_h5(os.path.join(tmp, "thetas.h5")) if raised is None and os.path.exists(os.path.join(tmp, "thetas.h5")) else None
@@ -1826,9 +1934,16 @@ def cli_case(ctx, res, spec, queue, iqueue):
                 lg.removeHandler(h)
         lg.setLevel(saved_level)
         shutil.rmtree(tmp, ignore_errors=True)
+    if raised is not None and raised_in_harness:
+        res.count("wrapper.unexpected-call")
+        fail("the harness's instrumentation of train_model.main() raised", raised, "recordable run", sig + ":wrapper-unexpected-call")
+        return
     if raised is not None:
         fail("train_model.main() raised on a valid screen", raised, "completes", sig + ":step-raised")
         return
+    for _b, tr_, _a in steps:
+        if wrapper_trouble(res, tr_, case, prefix=sig):
+            return
     if spec.get("verbose"):
         res.count("class.verbose-logging")
     # ---- (a) what the sampler received
@@ -1928,8 +2043,17 @@ def mvn_eval(case):
     Q, b, z = np.array(case["Q"], dtype=np.float64), np.array(case["b"], dtype=np.float64), np.array(case["z"], dtype=np.float64)
 
     class Z:
-        def normal(self, loc=0.0, scale=1.0, size=None):
+        """hands out the prescribed z whatever Generator method / call form asks for it (item 21)"""
+        other = []
+
+        def normal(self, *a, **k):
             return z.copy()
+
+        def __getattr__(self, name):
+            if name.startswith("__"):
+                raise AttributeError(name)
+            Z.other.append(name)
+            return lambda *a, **k: z.copy()
     kw = {"mu_part": b.copy()} if case.get("form", "mu_part") == "mu_part" else {"mu": b.copy()}
     got = np.asarray(fm.sample_mvn_from_precision(Q.copy(), rng=Z(), **kw), dtype=np.float64)
     L = np.linalg.cholesky(Q)
